@@ -400,7 +400,7 @@ def verdict(prop, mod, tier, seed, groups, results, t0, a):
         for (p, msg) in r.get('left_fragment') or []:
             undecided.append('%s path %d left the modelled fragment: %s' % (r['group'], p, msg))
         if r.get('kind') in ('proof', 'static'):
-            if not r['obligations']:
+            if not r['obligations'] and not r.get('left_fragment'):
                 broken.append('%s: zero obligations generated' % r['group'])
             for ob in r['obligations']:
                 n_ob += 1
